@@ -461,6 +461,16 @@ def gen_case(ctx, i):
         qs = cc.standard_queries(rng, content, n_states=2)
     if stratum == "module-constants":
         extra["session"] = cg.has_session(content)
+    if stratum == "unique+shared" and rng.random() < 0.3:
+        # same name, same text, DIFFERENT function objects (a helper copied into two modules): the generator compares the
+        # translated expressions, so they are one function for it - accepted, one def; for the Lean model `fid` / `src` is
+        # the translation class, so they are one fid
+        fl = [f for f in all_fns(content) if not f.get("src")]
+        for n, f in enumerate(fl):
+            if rng.random() < 0.5:
+                f["copy"] = n + 1
+        if any("copy" in f for f in fl):
+            stratum = "equal-copies"
     if stratum == "unique+shared" and rng.random() < 0.25:
         # readouts (outside the property's four kinds, written since the repair of F-C11-8): functions over any names of
         # the model, sometimes the function object of another component; oracle only (the Lean model has no readouts)
@@ -714,6 +724,10 @@ def _rich(name, args, e):
 
 
 CORPUS += [
+    # two different function OBJECTS, same name, same body (derived d1 and reaction r): accepted, one `def f`
+    {"content": {"vars": [["x", {"v": "1"}]], "pars": [["k", {"v": "3"}]],
+                 "derived": [["d1", {"args": ["x", "k"], "e": _F["mul"], "name": "f", "copy": 1}]],
+                 "rxns": [["r", {"args": ["d1", "k"], "e": _F["mul"], "name": "f", "copy": 2, "st": [["x", {"c": "-1"}]]}]]}},
     # readouts (F-C11-8, repaired: they were dropped silently): one shares the reaction's function object, one has its own
     {"content": {"vars": [["x", {"v": "1"}]], "pars": [["k", {"v": "3"}]],
                  "derived": [["d1", {"args": ["x", "k"], "e": _F["sub"], "name": "f"}]],
